@@ -159,6 +159,11 @@ class Server(Suite):
             for r in dress + [{"k": "str", "s": s_} for s_ in sup[:2] + SYNTAX_TEXT[:6] + V.HOSTILE_TEXT[:6]] + [{"k": "json", "v": v} for v in NON_STRINGS[:12]] \
                     + [{"k": "absent", "shape": sh} for sh in ABSENT_SHAPES]:
                 out.append({"req": r, "hv": hv})
+        # two server objects in one process, the request goes to the one built FIRST (every pairing of handler classes / variants)
+        for hv in V.HANDLER_VARIANTS:
+            for newer in V.HANDLER_VARIANTS:
+                for r in dress:
+                    out.append({"req": r, "hv": hv, "newer": newer})
         rng = ctx.sub_rng("c04-server", budget)
         out += [{"req": {"k": "str", "s": s}} for s in mutations(rng, sup, 300 if budget == "quick" else 5000)]
         out += self.sequences(sup)
@@ -201,12 +206,12 @@ class Server(Suite):
         """scenario kind computable before running (for the DEBUG-logging share)"""
         if "steps" in case:
             return ("seq", len(case["steps"]) if len(case["steps"]) <= 4 else "long", tuple(dict.fromkeys(str(s_.get("carry")) for s_ in case["steps"])),
-                    case.get("read"), bool(case.get("concurrent")), case.get("handlers"), case.get("hv"), bool(case.get("store_raises")),
+                    case.get("read"), bool(case.get("concurrent")), case.get("handlers"), case.get("hv"), tuple(case.get("hvs") or ()), bool(case.get("store_raises")),
                     bool(case.get("dump_raises")), tuple(sorted({str(s_.get("nested")) for s_ in case["steps"]})), any(s_.get("mutate") for s_ in case["steps"]),
                     case.get("backend"),
                     tuple(sorted({b for s_ in case["steps"] for b in (s_.get("between") or [])})))
         r = case["req"]
-        return ("one", r["k"], r.get("shape"), r.get("id"), r.get("ci"), r.get("layout"), case.get("hv"),
+        return ("one", r["k"], r.get("shape"), r.get("id"), r.get("ci"), r.get("layout"), case.get("hv"), case.get("newer"),
                 type(r.get("v")).__name__ if r["k"] == "json" else None)
 
     @staticmethod
@@ -242,6 +247,13 @@ class Server(Suite):
                                                          {"req": a, "h": 1, "carry": "other-handler"}]})
                 out.append({"handlers": 2, "steps": [{"req": a, "h": 0}, {"req": b, "h": 1}, {"req": b, "h": 0}, {"req": a, "h": 1}], "read": "late"})
                 out.append({"handlers": 3, "steps": [{"req": a, "h": 2}, {"req": b, "h": 0}, {"req": a, "h": 1}, {"req": b, "h": 2}, {"req": b, "h": 1, "carry": "other-handler"}]})
+        for hvs in (["plain", "mcpserver"], ["mcpserver", "plain"], ["mcpserver", "mcpserver"], ["registry", "plain", "mcpserver"], ["plain", "plain", "plain"]):
+            for a in reqs:
+                for b in reqs:
+                    # every handler built first; then the requests, oldest handler first and last
+                    steps = [{"req": a, "h": 0}, {"req": b, "h": len(hvs) - 1}, {"req": b, "h": 0, "carry": "prev"}, {"req": a, "h": 1}]
+                    out.append({"handlers": len(hvs), "hvs": hvs, "steps": steps})
+                    out.append({"handlers": len(hvs), "hvs": hvs, "steps": steps[:2], "read": "late"})
         for b in bad:  # the same unacceptable value once per handler (state must not be shared between handlers)
             out.append({"handlers": 2, "steps": [{"req": b, "h": 0}, {"req": b, "h": 1}, {"req": b, "h": 0}, {"req": good[0], "h": 1}]})
         # E. carried session ids of other types; C. handler variants x sequences incl. a registered method that raises in between
@@ -460,6 +472,12 @@ class Server(Suite):
             if r["k"] == "str" and r["s"] in sup and a != r["s"]:
                 return ("supported-version-not-acknowledged", f"initialize requesting the supported version {r['s']!r} was answered "
                         f"with {a!r}", {"answered": r["s"]})
+            if o.get("sid_returned") and not o.get("has_session"):
+                where = " (another server object of this process holds a session under that id)" if o.get("session_elsewhere") else ""
+                who = (f"; the answer names server {o.get('server_name')!r}, the request went to {o.get('expected_server_name')!r}"
+                       if o.get("expected_server_name") and o.get("server_name") != o.get("expected_server_name") else "")
+                return ("answered-session-not-recorded", f"initialize requesting {what_req}: answered {a!r} and handed out a session id, but the "
+                        f"server the request went to records no session under it{where}{who}", {"session": a})
             if o.get("has_session") and canon(o.get("session")) != canon(a):
                 return ("session-version-differs", f"initialize requesting {what_req}: answered {a!r} but the session records "
                         f"{canon(o.get('session'))}", {"session": a})
@@ -476,7 +494,7 @@ class Server(Suite):
             n = len(case["steps"])
             extra = "".join(sorted({"/between:" + "+".join(s["between"]) for s in case["steps"] if s.get("between")}
                                    | {"/same-object" for s in case["steps"] if s.get("same_object")}))
-            extra += ("/%d-handlers" % case["handlers"] if case.get("handlers") else "") + ("/" + case["hv"] if case.get("hv") else "") \
+            extra += ("/%d-handlers" % case["handlers"] if case.get("handlers") else "") + ("/" + "+".join(case["hvs"]) if case.get("hvs") else "") + ("/" + case["hv"] if case.get("hv") else "") \
                 + ("/store-raises:" + case["store_raises"]["cls"] if case.get("store_raises") else "") \
                 + ("/result-builder-raises" if case.get("dump_raises") else "") + ("/nested" if any(s.get("nested") for s in case["steps"]) else "") \
                 + ("/consumer-rewrites-response" if any(s.get("mutate") for s in case["steps"]) else "") \
@@ -489,6 +507,8 @@ class Server(Suite):
                          "/clientInfo:" + r["ci"] if r.get("ci") else "", "/layout:" + r["layout"] if r.get("layout") else ""])
         if case.get("hv"):
             dress += "/handler:" + case["hv"]
+        if case.get("newer"):
+            dress += "/newer-object:" + case["newer"]
         if case.get("backend"):
             dress += "/" + case["backend"]
         if dress:
@@ -545,8 +565,12 @@ class Handshake(Suite):
             out += [{"sup": sup, "pref": pref, "buf": buf} for sup in lists if sup is None or len(sup) <= 2 for pref in (None, "2024-11-05", "")]
         out += [{"sup": sup + tail, "pref": pref, "buf": (None, 0)[i % 2]} for i, sup in enumerate(magic)
                 for tail in ([], ["2025-03-26"]) for pref in (None, sup[0])]
+        # the caller's list as every sequence type the library accepts (tuple, deque, UserList, a Sequence subclass)
+        for kind in V.SEQUENCE_KINDS[1:]:
+            out += [{"sup": sup, "pref": pref, "sup_kind": kind} for sup in lists if sup is not None and len(sup) <= 2 for pref in (None, sup[-1], V.OUTSIDE)]
         # several clients on ONE handler whose server loop handles every pending initialize before it serialises any answer
-        clients = [{"sup": [v], "pref": None} for v in V.REAL] + [
+        clients = [{"sup": [v], "pref": None} for v in V.REAL] + [{"sup": ["2024-11-05"], "pref": None, "sup_kind": "tuple"},
+                                                                    {"sup": ["2024-10-07", "2025-03-26"], "pref": None, "sup_kind": "deque"}] + [
             {"sup": None, "pref": None}, {"sup": None, "pref": "2024-11-05"}, {"sup": ["2026-01-01"], "pref": None},
             {"sup": ["2026-01-01", "2024-11-05"], "pref": None}, {"sup": ["1999-12-31", "2025-03-26"], "pref": "2025-03-26"}]
         for a in clients:
@@ -556,7 +580,7 @@ class Handshake(Suite):
         for _ in range(60 if budget == "quick" else 600):
             out.append({"clients": [rng.choice(clients) for _ in range(3)]})
         out = [dict(c) for c in out]
-        out = V.assign_debug(out, lambda c: ("multi", len(c["clients"])) if "clients" in c else ("one", c.get("buf"), c["sup"] is None, c["pref"] is None), ctx=ctx, name=self.name)
+        out = V.assign_debug(out, lambda c: ("multi", len(c["clients"])) if "clients" in c else ("one", c.get("buf"), c["sup"] is None, c["pref"] is None, c.get("sup_kind")), ctx=ctx, name=self.name)
         # the same with BOTH sides started without Pydantic (MCP_FORCE_FALLBACK=1) in a worker process
         fb = [dict(c, backend="fallback") for c in out if "clients" in c or c["sup"] is None or len(c["sup"]) <= (1 if budget == "quick" else 2)]
         ctx.notes.append(f"{self.name}: {len(fb)} of the cases also run in a worker process with MCP_FORCE_FALLBACK=1")
@@ -640,7 +664,8 @@ class Handshake(Suite):
         ssup = set(V.server_supported())
         csup = case["sup"] if case["sup"] is not None else list(ssup)
         common = "common" if ssup & set(csup) else "disjoint"
-        return f"handshake/{common}/{o.get('outcome')}" + ("/" + case["backend"] if case.get("backend") else "")
+        return f"handshake/{common}/{o.get('outcome')}" + ("/" + case["backend"] if case.get("backend") else "") \
+            + ("/list-as-" + case["sup_kind"] if case.get("sup_kind") else "")
 
     def shrink_candidates(self, case):
         sup = case["sup"]
